@@ -28,6 +28,7 @@ import (
 	"github.com/nuts-foundation/go-stoabs"
 	"github.com/nuts-foundation/go-stoabs/bbolt"
 	"github.com/nuts-foundation/nuts-node/core"
+	"github.com/nuts-foundation/nuts-node/crypto/hash"
 	"github.com/nuts-foundation/nuts-node/storage"
 	"github.com/nuts-foundation/nuts-node/vdr/didnuts/didstore"
 	"github.com/nuts-foundation/nuts-node/vdr/resolver"
@@ -102,7 +103,7 @@ type result struct {
 	Err  string          `json:"err,omitempty"`
 	Doc  json.RawMessage `json:"doc,omitempty"`
 	Meta *normMeta       `json:"meta,omitempty"`
-	// rawSources keeps the order as returned (observation only)
+	// rawSources keeps the order as returned (compared under its own class)
 	rawSources []string
 }
 
@@ -169,6 +170,15 @@ func iterContents(iterate func(fn resolver.DocIterator) error) string {
 	return strings.Join(items, "\n")
 }
 
+// offLabel names an instant by its offset from t0: whole seconds as before, otherwise with the nanoseconds.
+func offLabel(tm time.Time) string {
+	d := tm.Sub(t0)
+	if d%time.Second == 0 {
+		return fmt.Sprintf("%+d", int(d/time.Second))
+	}
+	return fmt.Sprintf("%+dns", int64(d))
+}
+
 func observe(t *testing.T, s didstore.Store, c *compiled) observation {
 	o := observation{latest: map[int]result{}, latestNil: map[int]result{}, docs: map[string]bool{}, activeAtDeactivation: map[int]string{}}
 	add := func(name string, r result) {
@@ -191,10 +201,10 @@ func observe(t *testing.T, s didstore.Store, c *compiled) observation {
 		add(p+"latest+deactivated", r1)
 		for _, tm := range c.times {
 			tm := tm
-			add(fmt.Sprintf("%sby-time/%+d", p, int(tm.Sub(t0)/time.Second)), normalise(s.Resolve(id, &resolver.ResolveMetadata{ResolveTime: &tm, AllowDeactivated: true})))
+			add(fmt.Sprintf("%sby-time/%s", p, offLabel(tm)), normalise(s.Resolve(id, &resolver.ResolveMetadata{ResolveTime: &tm, AllowDeactivated: true})))
 			if c.hasDeactivation(d) {
 				// without AllowDeactivated the store skips deactivated versions and answers with an earlier active one
-				add(fmt.Sprintf("%sby-time-active/%+d", p, int(tm.Sub(t0)/time.Second)), normalise(s.Resolve(id, &resolver.ResolveMetadata{ResolveTime: &tm})))
+				add(fmt.Sprintf("%sby-time-active/%s", p, offLabel(tm)), normalise(s.Resolve(id, &resolver.ResolveMetadata{ResolveTime: &tm})))
 			}
 		}
 		if T, ok := c.deactivationTime(d); ok {
@@ -221,6 +231,22 @@ func observe(t *testing.T, s didstore.Store, c *compiled) observation {
 			h, ref := e.tx.PayloadHash, e.tx.Ref
 			add(fmt.Sprintf("%sby-hash/e%d", p, i), normalise(s.Resolve(id, &resolver.ResolveMetadata{Hash: &h, AllowDeactivated: true})))
 			add(fmt.Sprintf("%sby-tx/e%d", p, i), normalise(s.Resolve(id, &resolver.ResolveMetadata{SourceTransaction: &ref, AllowDeactivated: true})))
+		}
+		// the published history (Store.HistorySinceVersion: every version as it was published, in the store's order)
+		hist, herr := s.HistorySinceVersion(id, 0)
+		if herr != nil {
+			o.Fields = append(o.Fields, field{p + "history", "ERR " + herr.Error()})
+		} else {
+			var hs []string
+			for _, h := range hist {
+				hs = append(hs, fmt.Sprintf("v%d created=%s updated=%s sha256=%s", h.Version, h.Created.UTC().Format(time.RFC3339Nano),
+					h.Updated.UTC().Format(time.RFC3339Nano), hash.SHA256Sum(h.Raw).String()))
+			}
+			o.Fields = append(o.Fields, field{p + "history", strings.Join(hs, "\n")})
+			if len(hist) > 1 {
+				tail, terr := s.HistorySinceVersion(id, len(hist)-1)
+				o.Fields = append(o.Fields, field{p + "history-tail", fmt.Sprintf("%d err=%v", len(tail), terr)})
+			}
 		}
 		// every stored version (injected read-only export, aligned by version number), and resolve-by-hash of every
 		// version hash: only the document is compared there, because two versions with the same bytes share a hash
@@ -425,6 +451,8 @@ func memberDiffs(ref, got []field, canonical bool, keep func(name string) bool) 
 			cls = "tuple-shape"
 		case strings.HasSuffix(f.Name, "version-count") || strings.HasSuffix(f.Name, "/versions"):
 			cls = "version-count"
+		case strings.HasSuffix(f.Name, "/history") || strings.HasSuffix(f.Name, "/history-tail"):
+			cls = "published-history"
 		case isIter(f.Name):
 			cls = iterDiff(rv, f.Val, canonical)
 		default:
@@ -522,8 +550,24 @@ type execution struct {
 	addError                string // Add returned an error (no observation was made)
 }
 
+// restart closes the bbolt file, opens it again and builds a new store over it (a process restart).
+func (i *inst) restart(t *testing.T) {
+	_ = i.kv.Close(context.Background())
+	kv, err := bbolt.CreateBBoltStore(filepath.Join(i.dir, "didstore.db"), stoabs.WithNoSync(), stoabs.WithLockAcquireTimeout(time.Hour))
+	if err != nil {
+		t.Fatal(err)
+	}
+	i.kv = kv
+	i.store = i.reopen(t)
+}
+
 // run delivers the arrivals of c in the given order to a fresh store and observes.
 func run(t *testing.T, c *compiled, order []int, reads int) execution {
+	return runMode(t, c, order, reads, "")
+}
+
+// runMode: mode "restart" = the process is restarted (file closed and re-opened, new store) after every delivery.
+func runMode(t *testing.T, c *compiled, order []int, reads int, mode string) execution {
 	in := newInst(t)
 	defer in.close()
 	x := execution{activeAfterDeactivation: -1}
@@ -534,11 +578,14 @@ func run(t *testing.T, c *compiled, order []int, reads int) execution {
 		if err := json.Unmarshal(e.payload, &doc); err != nil { // as the ambassador does with the transaction payload
 			t.Fatalf("harness: document does not parse: %v", err)
 		}
-		if err := in.store.Add(doc, e.tx); err != nil {
+		if err := in.store.Add(doc, c.arrTx[a]); err != nil {
 			x.addError = fmt.Sprintf("arrival %d (event %d): %v", pos, c.arrivals[a], err)
 			return x
 		}
 		x.adds++
+		if mode == "restart" {
+			in.restart(t)
+		}
 		if e.spec.Doc.Deact {
 			deactArrived[e.did] = true
 		}
@@ -570,7 +617,31 @@ func run(t *testing.T, c *compiled, order []int, reads int) execution {
 // replay case and selects the oracle clause of the signature.
 var curFault *faultSpec
 
+// curOracle names the dimension under which two executions are compared when it is not the arrival order: "restart" (the
+// same order with a process restart between all deliveries) or "representation" (the same set with every signing time in
+// the plain UTC representation). It goes into the replay case and the signature.
+var curOracle string
+
+// plainReps returns the set with every signing time in the plain representation, and whether that is a different set
+// with the same instants and references (false: nothing to compare, or events built from network transactions).
+func plainReps(sc scenario) (scenario, bool) {
+	out := sc
+	out.Events = append([]evSpec{}, sc.Events...)
+	changed := false
+	for i := range out.Events {
+		if out.Events[i].Rep == "dag" {
+			return sc, false
+		}
+		if out.Events[i].Rep != "" {
+			out.Events[i].Rep = ""
+			changed = true
+		}
+	}
+	return out, changed
+}
+
 type replayCase struct {
+	Mode     string     `json:"mode,omitempty"` // "" | restart | representation (see curOracle)
 	Fault    *faultSpec `json:"fault,omitempty"`
 	Scenario scenario   `json:"scenario"`
 	Order    []int      `json:"order"`
@@ -586,12 +657,27 @@ func TestVerifC10(t *testing.T) {
 	r.Rule("event sets from a grammar: per DID a creation and updates whose prevs are every non-empty subset of earlier events (all DAG shapes), " +
 		"x signing-time scheme (increasing / all equal / decreasing) x transaction-ref tie-break direction x clock bump of one event x document palette " +
 		"(1-3 keys, 0-3 controllers in varying listed order, services with equal ids and different content, identical documents, deactivation at every position) " +
-		"+ exact duplicate deliveries + two interleaved DIDs; EVERY permutation of the arrivals of a set is delivered to a fresh real store; " +
+		"+ exact duplicate deliveries + two interleaved DIDs " +
+		"+ the representation of equal values as a dimension: on every set with clock-and-instant ties (2 and 3 parallel branches, updates after the fork, a bumped non-sibling, two DIDs) " +
+		"every tied event's signing time in every time.Time representation of the same instant (UTC, time.Unix/Local, time.Now()-derived with monotonic reading, fixed zones incl. a zero-offset zone pointer, " +
+		"after a JSON round trip, built from a real signed and parsed network transaction): full product for <= 3 tied events, singles otherwise; clock ties with signing times that differ below one second " +
+		"(raw, and through the DAG's whole seconds); one document in several serialisations; EVERY permutation of the arrivals of a set is delivered to a fresh real store " +
+		"(the sets with 2 tied events and the 3-way fork also with a process restart between all deliveries, and every set in other representations is compared with its plain-UTC twin); " +
 		"a case = (set, order); it is non-trivial when the order differs from the causal order")
 	r.Assume("bbolt (NoSync, as in the repository's own test stores) and go-did JSON (un)marshalling are exercised, not modelled")
 	r.Assume("Go map iteration cannot be seamed: besides all permutations, the causal order of every set is executed repeatedly on fresh stores and every final read is repeated; this is the only repetition-based part of the check (DESIGN 2.7)")
-	r.Assume("SourceTransactions are compared as a set; their listed order is reported as an observation only")
+	r.Assume("two answers whose SourceTransactions differ only in listed order are reported under their own class (source-transactions-listed-order); every other class compares them as a set")
 
+	{
+		// the stored form of a signing time is what JSON decoding gives: with a local zone east of UTC a time.Unix value keeps the
+		// Local pointer, a UTC value gets nil and any other offset a fresh fixed-zone pointer (all three forms are wanted)
+		var back time.Time
+		b, _ := json.Marshal(time.Unix(t0.Unix(), 0))
+		_ = json.Unmarshal(b, &back)
+		_, off := time.Unix(t0.Unix(), 0).Zone()
+		r.AssumptionCheck("process-local-zone-is-not-utc (stored signing times can carry the Local pointer)", off != 0 && back.Location() == time.Local,
+			fmt.Sprintf("local offset %d s, decoded location %s", off, back.Location()))
+	}
 	var rc replayCase
 	if r.ReplayCase(&rc) {
 		c := compile(t, rc.Scenario)
@@ -604,6 +690,31 @@ func TestVerifC10(t *testing.T) {
 			judge(r, c, rc.Order, x, "fault")
 			compare(r, c, rc.RefOrder, ref, rc.Order, x)
 			r.Eval(c.name + fmt.Sprint(rc.Order) + rc.Fault.String())
+			return
+		}
+		if rc.Mode == "restart" || rc.Mode == "representation" {
+			curOracle = rc.Mode
+			var got execution
+			if rc.Mode == "restart" {
+				ref = run(t, c, rc.Order, 1)
+				got = runMode(t, c, rc.Order, 1, "restart")
+			} else {
+				plain, _ := plainReps(rc.Scenario)
+				ref = run(t, compile(t, plain), rc.RefOrder, 1)
+				got = run(t, c, rc.Order, 1)
+			}
+			judge(r, c, rc.Order, got, "replayed")
+			compare(r, c, rc.RefOrder, ref, rc.Order, got)
+			curOracle = ""
+			r.Eval(c.name + fmt.Sprint(rc.Order) + rc.Mode)
+			for _, f := range got.fields() {
+				if v := memberValue(ref, f.Name); v != f.Val {
+					t.Logf("member %s\n  reference: %s\n  %s: %s", f.Name, v, rc.Mode, f.Val)
+				}
+			}
+			for i, e := range c.events {
+				t.Logf("event %d: did %d clock %d time %s (%s) ref %s.. prevs %v", i, e.did, e.tx.Clock, offLabel(e.tx.SigningTime), e.spec.Rep, e.tx.Ref.String()[:6], e.spec.Prevs)
+			}
 			return
 		}
 		// a difference that stems from map iteration needs not show in one pair of executions: replay the pair 32 times
@@ -664,7 +775,9 @@ func TestVerifC10(t *testing.T) {
 	r.Bound("work_units", len(units))
 
 	states := map[string]struct{}{}
-	var execs, adds int64
+	var execs, adds, restarts, repSets, execsMark int64
+	blockExecs := map[string]int64{}
+	lastBlock := ""
 	sizes := map[int]int64{}
 	for ui, u := range units {
 		if !r.Mine(ui) {
@@ -676,6 +789,10 @@ func TestVerifC10(t *testing.T) {
 		sc := scs[u.sc]
 		c := compile(t, sc)
 		n := len(c.arrivals)
+		if lastBlock != "" {
+			blockExecs[lastBlock] += execs - execsMark
+		}
+		lastBlock, execsMark = sc.Name[:1], execs
 		refOrder := make([]int, n)
 		for i := range refOrder {
 			refOrder[i] = i
@@ -684,9 +801,26 @@ func TestVerifC10(t *testing.T) {
 		execs++
 		adds += int64(ref.adds)
 		judge(r, c, refOrder, ref, "causal order")
+		if plain, ok := plainReps(sc); ok && u.first <= 0 {
+			// the same transactions with every signing time in the plain representation: the same answers
+			base := run(t, compile(t, plain), refOrder, 1)
+			execs++
+			adds += int64(base.adds)
+			r.Eval(c.name + "|plain-representation")
+			curOracle = "representation"
+			compare(r, c, refOrder, base, refOrder, ref)
+			curOracle = ""
+			repSets++
+		}
 		if u.first <= 0 {
 			// determinism of one and the same order (map iteration inside the merge)
-			for k := 1; k < repeats; k++ {
+			// (sets that differ from another set only in the representation of their signing times are not repeated: the
+			// merges are those of their plain twin)
+			reps := repeats
+			if _, other := plainReps(sc); other {
+				reps = 1
+			}
+			for k := 1; k < reps; k++ {
 				again := run(t, c, refOrder, 1)
 				execs++
 				adds += int64(again.adds)
@@ -708,6 +842,31 @@ func TestVerifC10(t *testing.T) {
 					trivial = false
 				}
 			}
+			if sc.Restart {
+				// the same order with a process restart between all deliveries
+				var plainRun execution
+				if trivial {
+					plainRun = ref
+				} else {
+					plainRun = run(t, c, perm, 1)
+					execs++
+					adds += int64(plainRun.adds)
+					r.Eval(c.name + fmt.Sprint(perm))
+					judge(r, c, perm, plainRun, "permuted order")
+					compare(r, c, refOrder, ref, perm, plainRun)
+					states[c.name+"\x00"+plainRun.obs.key()] = struct{}{}
+				}
+				re := runMode(t, c, perm, 1, "restart")
+				execs++
+				restarts++
+				adds += int64(re.adds)
+				r.Eval(c.name + fmt.Sprint(perm) + "|restart")
+				judge(r, c, perm, re, "permuted order")
+				curOracle = "restart"
+				compare(r, c, perm, plainRun, perm, re)
+				curOracle = ""
+				return true
+			}
 			if trivial {
 				r.Eval("")
 				return true
@@ -726,7 +885,15 @@ func TestVerifC10(t *testing.T) {
 			r.Sample(map[string]any{"set": sc, "arrivals": n, "latest_of_first_did": ref.obs.latest[0]})
 		}
 	}
+	if lastBlock != "" {
+		blockExecs[lastBlock] += execs - execsMark
+	}
+	for b, k := range blockExecs {
+		r.AddExtra("executions_block_"+b, k)
+	}
 	r.AddExtra("executions", execs)
+	r.AddExtra("executions_with_restart_between_deliveries", restarts)
+	r.AddExtra("sets_compared_with_their_plain_representation", repSets)
 	r.AddExtra("adds", adds)
 	r.AddExtra("distinct_final_observations", int64(len(states)))
 	for n, k := range sizes {
@@ -745,6 +912,9 @@ func dupRedundant(c *compiled, perm []int) bool {
 		pos[a] = p
 	}
 	for k := range c.sc.Dup {
+		if k < len(c.sc.DupRep) && c.sc.DupRep[k] != "" && c.sc.DupRep[k] != "same" {
+			continue // the two deliveries differ in form: both relative orders are cases
+		}
 		dupArrival := len(c.events) + k
 		if pos[dupArrival] < pos[c.sc.Dup[k]] {
 			return true
@@ -867,7 +1037,20 @@ func compare(r *ev.Run, c *compiled, refOrder []int, ref execution, order []int,
 					break
 				}
 			}
-			r.Observation("source-transactions-listed-in-different-order", ex)
+			// the answers list the same source transactions in another order. The store merges and lists them in a fixed order
+			// (position in the DID's event list, then sorted references), so the listed order is part of the answer.
+			oracle, mode := "differential", ""
+			switch {
+			case curFault != nil:
+				oracle = "fault-redelivery"
+			case curOracle == "restart":
+				oracle, mode = "restart-between-deliveries", curOracle
+			case curOracle == "representation":
+				oracle, mode = "representation-of-signing-time", curOracle
+			}
+			r.Violation("C10|"+oracle+"|source-transactions-listed-order",
+				fmt.Sprintf("set %s: order %v and order %v give the same documents and metadata, but SourceTransactions are listed in another order (%v / %v)", c.name, refOrder, order, ex["reference_order_lists"], ex["this_order_lists"]),
+				replayCase{Mode: mode, Fault: curFault, Scenario: c.sc, Order: order, RefOrder: refOrder, Differs: ex})
 		}
 		return
 	}
@@ -875,6 +1058,9 @@ func compare(r *ev.Run, c *compiled, refOrder []int, ref execution, order []int,
 	clause := "order"
 	if same {
 		clause = "same-order-repeated"
+	}
+	if curOracle != "" {
+		clause = curOracle
 	}
 	countClass := func(refVal, gotVal string) string {
 		// which side is wrong is decided by the DAG of the set: number of DIDs with more than one head
@@ -924,11 +1110,20 @@ func compare(r *ev.Run, c *compiled, refOrder []int, ref execution, order []int,
 			}
 		}
 		oracle := "differential"
+		mode := ""
+		switch curOracle {
+		case "restart":
+			oracle, mode = "restart-between-deliveries", curOracle
+			what = fmt.Sprintf("set %s, order %v: delivered with a process restart (file closed and re-opened, new store) between all deliveries the answers differ from the same order without restarts (%s) for %v", c.name, order, cls, members)
+		case "representation":
+			oracle, mode = "representation-of-signing-time", curOracle
+			what = fmt.Sprintf("set %s, order %v: the same transactions with their signing times in other time.Time representations of the same instants give different answers (%s) for %v", c.name, order, cls, members)
+		}
 		if curFault != nil {
 			oracle = "fault-redelivery"
 			what = fmt.Sprintf("set %s, order %v, %s: the final answers differ from the fault-free store (%s) for %v", c.name, order, curFault, cls, members)
 		}
-		r.Violation("C10|"+oracle+"|"+cls, what, replayCase{Fault: curFault, Scenario: c.sc, Order: order, RefOrder: refOrder,
+		r.Violation("C10|"+oracle+"|"+cls, what, replayCase{Mode: mode, Fault: curFault, Scenario: c.sc, Order: order, RefOrder: refOrder,
 			Differs: map[string]any{"class": cls, "members": members, "exposed_by": clause, "values_reference_then_this_order": values}})
 	}
 }
